@@ -166,14 +166,22 @@ PROPS = {
         "assumptions": ["buffers of 51 bytes only; whole-index equality across kernel configurations not covered"],
     },
     "C17": {
-        "level": "other",
-        "explanation": "inductive in the lookup history, bounded in data: the table is built by the real builder from a symbolic sequence of "
-                       "5 positions (text length 130); the private cursor cell is then overwritten with ANY cursor value satisfying the stated "
-                       "invariant and one get(i) with symbolic i is executed: the answer must be the recorded position and the invariant must "
-                       "hold afterwards; the default cursor satisfies the invariant. All lookup orders follow by induction on the length of the "
-                       "history. Dense fallbacks are plain Vec indexing.",
-        "trusted_base": COMMON_TRUST + ["select_in_word / block_popcount replaced by their proved contracts (C02)"],
-        "assumptions": ["data bound: 5 positions, text_len 130 (3 IB words, one advance word)", "positions strictly less than text_len (see DESIGN: a position equal to a text length that is a multiple of 64 is outside the stored bitmap)"],
+        "level": "proof",
+        "explanation": "Verus proves on the extracted text of both compact tables (AdvancePositions for node starts, CompactEndPositions "
+                       "for the zero-filled ends), for tables of every size: advance_rank1, ib_select1_with_state (sampled start, masked "
+                       "first word), get_sequential (advance-bit test, duplicate fast path, forward scan), advance_cursor_to, get_random and "
+                       "get return exactly the answer the two bitmaps define -- the position of the (number of advance bits among nodes "
+                       "0..=i, minus one)-th interest bit; None past the end or before the first advance -- for every node index and for EVERY "
+                       "cursor value satisfying the cursor invariant; every value stored into the cursor cell satisfies the invariant "
+                       "(InvCell model) and the cursor does not occur in the postcondition, so the answers cannot depend on the order or "
+                       "repetition of earlier lookups. The builders (build_unchecked / try_build: bitmaps == recorded positions) are NOT "
+                       "proved: bounded Kani evidence (thorough tier) runs the real builder on 5 positions and then one lookup from any "
+                       "invariant-satisfying cursor. Dense fallbacks are plain Vec indexing.",
+        "trusted_base": COMMON_TRUST + ["Verus 0.2026.09.13 + Z3; InvCell model of core::cell::Cell",
+                                        "seam R4: scan_select contract (unit c01_scan), select_in_word contract (Kani, C02)"],
+        "assumptions": ["representation invariant of the tables (rank directory over the advance words, total ones, samples are select "
+                        "positions, tail bits clear, at most 2^32 text bytes) is assumed of callers: the builders have bounded evidence only",
+                        "usize is 64 bits"],
     },
     "C04": {
         "level": "other",
